@@ -32,7 +32,7 @@ var c04Pals = func() [][64]color.RGBA {
 	b[1] = color.RGBA{0x20, 0x30, 0x10, 0x40}
 	c[0] = color.RGBA{0x90, 0x10, 0x10, 0x80}  // invalid premultiplied
 	c[1] = color.RGBA{0x02, 0x4a, 0x8a, 0x00}  // gradient-looking
-	c[62] = color.RGBA{0, 0, 0, 0}            // transparent
+	c[62] = color.RGBA{0, 0, 0, 0}             // transparent
 	c[63] = color.RGBA{0x00, 0x00, 0x7f, 0x00} // invalid, not a gradient
 	return [][64]color.RGBA{a, b, c}
 }()
@@ -74,7 +74,7 @@ var c04Letters = func() []c04Letter {
 		add(rec.Call{M: rec.MSetCReg, C: c})
 	}
 	// gradient colour values addressing registers that the number letters below fill
-	add(rec.Call{M: rec.MSetCReg, C: rgba(0x02, 0x40|62, 0x80|0, 0x00)})  // 2 stops CBASE 62 (wraps), NBASE 0, pad
+	add(rec.Call{M: rec.MSetCReg, C: rgba(0x02, 0x40|62, 0x80|0, 0x00)}) // 2 stops CBASE 62 (wraps), NBASE 0, pad
 	add(rec.Call{M: rec.MSetCReg, C: rgba(0x03, 0x80|0, 0xc0|62, 0x00)}) // 3 stops CBASE 0, NBASE 62 (wraps), radial reflect
 	for _, ci := range []int{0, 9, 10, 11, 15, 20} {
 		add(rec.Call{M: rec.MSetCReg, Adj: 1, C: domCol[ci]})
@@ -351,7 +351,14 @@ func (st *c04State) history(cs *c04Case) {
 		var z3 render.Renderer
 		var ras3 rec.Raster
 		z3.SetRasterizer(&ras3, rect)
-		z3.Reset(ivg.DefaultViewBox, pal)
+		// a palette given as a decode option is sanitised (C14): invalid entries act as opaque black
+		spal := pal
+		for i := range spal {
+			if !ref.Premul(spal[i]) {
+				spal[i] = ref.OpaqueBlack
+			}
+		}
+		z3.Reset(ivg.DefaultViewBox, spal)
 		for i := range calls {
 			calls[i].Apply(&z3)
 		}
@@ -455,7 +462,50 @@ func (st *c04State) gradientOne(cbase, nbase, nstops, t int) {
 		cs.Desc = fmt.Sprintf("gradient CBASE=%d NBASE=%d NSTOPS=%d template %d", cbase, nbase, nstops, t)
 		w.Fail("gradient-table:"+key, cs.Desc+": "+what, cs)
 	}
-	st.probe(0, 16, fail)
+	if !st.probe(0, 16, fail) {
+		return
+	}
+	// the paint is resolved when the path STARTS: change one register between two paths that
+	// use the same gradient value and probe again (no colour-register write in between for the
+	// number-register changes)
+	if nstops >= 1 {
+		k := uint8((cbase*7 + nbase*3 + nstops + t) % nstops)
+		follow := []rec.Call{
+			{M: rec.MSetNSel, Adj: (uint8(nbase) + k) & 63},
+			{M: rec.MSetNReg, A: [6]float32{[]float32{0.5, -0.25, 1, 0.999}[(cbase+t)%4]}}, // a stop offset
+		}
+		for i := range follow {
+			st.applyBoth(&follow[i])
+		}
+		if !st.probe(0, 16, func(key, what string) { fail("after-nreg-write:"+key, what) }) {
+			return
+		}
+		follow = []rec.Call{
+			{M: rec.MSetNSel, Adj: (uint8(nbase) - 6 + uint8(t%6)) & 63},
+			{M: rec.MSetNReg, A: [6]float32{2.5}}, // a matrix entry: must show in the next paint's geometry (C15) but never change drawn/not drawn
+			{M: rec.MSetNSel, Adj: (uint8(nbase) + k) & 63},
+			{M: rec.MSetNReg, A: [6]float32{nreg[(1+int(uint8(nbase)+k)-1)&63]}}, // restore the stop offset
+		}
+		for i := range follow {
+			st.applyBoth(&follow[i])
+		}
+		if !st.probe(0, 16, func(key, what string) { fail("after-nreg-restore:"+key, what) }) {
+			return
+		}
+		follow = []rec.Call{
+			{M: rec.MSetCSel, Adj: (uint8(cbase) + k) & 63},
+			{M: rec.MSetCReg, C: domCol[10+(t%2)]}, // a stop colour: non-premultiplied / gradient value
+			{M: rec.MSetCSel, Adj: uint8(cbase-1) & 63},
+		}
+		for i := range follow {
+			st.applyBoth(&follow[i])
+		}
+		if (uint8(cbase)+k)&63 != uint8(cbase-1)&63 { // unless that overwrote the gradient value itself
+			if !st.probe(0, 16, func(key, what string) { fail("after-creg-write:"+key, what) }) {
+				return
+			}
+		}
+	}
 	p := st.vm.StartPath(0, 16)
 	h := mc.NewHasher()
 	h.Str("g")
